@@ -1,4 +1,5 @@
 import MxModel.Proofs.Relative
+import MxModel.Proofs.RelativeHist
 /-!
 # C10 – object-valued references rebind relatively or stay absolute as their mode says
 
@@ -403,6 +404,242 @@ theorem dynamic_outside (existsRel : Path → Bool) (root owner impl : Path) (de
 theorem dynamic_plain (existsRel : Path → Bool) (root owner : Path) (m : Mode) (f d : Bool) (x : Int) :
     wrapImpl existsRel root owner ⟨m, f, d, .plain x⟩ = .keep ∧
     wrapImpl existsRel root owner ⟨m, f, d, .null⟩ = .keep := ⟨rfl, rfl⟩
+
+/-! ## Edit histories: every derived reference is what re-derivation gives NOW
+
+`Kernels/RelativeHist.lean` drives the decision logic above by a state - spaces with ordered bases
+(linearised by `C3.mro`), own cells, references defined (value, mode) or derived (mode, binding) - and the
+operations `newSpace` (with bases), `setRef` (`new_ref` / `change_ref` behind `_check_subs_relrefs`:
+`setRefGuarded`, `newRefSub`), `delRef`, `addBase`, `removeBase` (re-derivation by `reinherit`, refused
+as a whole when it would raise).  `dirty` is ghost state: a space is marked when the linearisation of one
+of its ENCLOSING spaces changed and it was not derived again since (`addBase` / `removeBase` derive the
+space and the spaces that inherit from it again, not their child spaces). -/
+
+section histories
+open MxModel.RelHist
+
+/-- **After ANY history every derived reference of every space is what `on_inherit` from its first definer
+gives in the CURRENT state**: it carries the definer's mode; when the definer holds an object it is
+bound to what `reinherit` computes from the current linearisations (to a null object instead when the
+counterpart did not exist at the time of the last derivation - children are not inherited); a value
+that is no object is copied.  For every space that is not `dirty`, i.e. no enclosing space had its
+linearisation changed since the space was last derived (the hypothesis is needed:
+`enclosing_base_change_full_fails`, known finding C10-enclosing-base-change). -/
+theorem derived_refs_always_rebound (ops : List ROp) (q : Path) (n : String) (r : DRef)
+    (hr : (RState.run {} ops).ref q n = some ⟨false, r⟩) (hd : (RState.run {} ops).dirty q = false) :
+    Expected (RState.run {} ops) q n r :=
+  (rinv_run ops {} rinv_empty).rebound q n r hr hd
+
+/-- **the hypothesis concerns nested spaces after base changes only**: a space is marked only by
+`add_bases` / `remove_bases` - in a history without them no space is ever marked - and only a space that
+lies strictly below another one: a top-level space is never marked, so for top-level spaces
+`derived_refs_always_rebound` holds without hypothesis -/
+theorem marked_only_below_base_changes (ops : List ROp) :
+    ((∀ op ∈ ops, op.isRebase = false) → ∀ q, (RState.run {} ops).dirty q = false) ∧
+    (∀ q, (RState.run {} ops).dirty q = true → 2 ≤ q.length) :=
+  ⟨fun h => no_rebase_no_dirty ops {} h (fun _ => rfl),
+   dirty_depth_run ops {} rinv_empty (fun q hq => by cases hq)⟩
+
+/-- for top-level spaces: after ANY history, no hypothesis -/
+theorem top_level_derived_refs_always_rebound (ops : List ROp) (s : String) (n : String) (r : DRef)
+    (hr : (RState.run {} ops).ref [s] n = some ⟨false, r⟩) : Expected (RState.run {} ops) [s] n r := by
+  apply derived_refs_always_rebound ops [s] n r hr
+  cases hd : (RState.run {} ops).dirty [s] with
+  | false => rfl
+  | true => have := (marked_only_below_base_changes ops).2 [s] hd; simp at this
+
+/-- the reachable states are well-formed: every space has a linearisation, bases exist, the tree of spaces
+is closed under parents, names are clean -/
+theorem reachable_shape (ops : List ROp) : RShape (RState.run {} ops) := (rinv_run ops {} rinv_empty).toRShape
+
+/-- **absolute**: bound to the very object the definer holds, after any history -/
+theorem derived_absolute_same_object (ops : List ROp) (q : Path) (n : String) (r : DRef) (D : Path) (dr : DRef)
+    (v : Path)
+    (hr : (RState.run {} ops).ref q n = some ⟨false, r⟩) (hd : (RState.run {} ops).dirty q = false)
+    (hf : (RState.run {} ops).firstDefiner q n = some (D, dr)) (hm : dr.mode = .absolute)
+    (ht : dr.binding.target = .obj v) : r = ⟨.absolute, ⟨.obj v, false⟩⟩ := by
+  obtain ⟨D', dr', hf', hmode, hexp⟩ := derived_refs_always_rebound ops q n r hr hd
+  rw [hf] at hf'; cases hf'
+  rw [ht] at hexp
+  obtain ⟨b, hb, hu⟩ := hexp
+  rw [hm] at hb
+  simp only [reinherit, onInherit, Option.some.injEq] at hb
+  subst hb
+  rcases hu with hu | ⟨_, _, h3, _⟩
+  · exact hu
+  · cases h3
+
+/-- **relative / auto, the definer's target inside the definer's tree** (`rel = []`: the defining space
+itself; `[c]`: one of its cells; longer: deeper): after any history the derived reference is bound
+relatively, inside the deriving space's own tree: to `q ++ rel` - or to a null object when `q ++ rel` did
+not exist at the last derivation -/
+theorem derived_relative_bound_inside_own_tree (ops : List ROp) (q : Path) (n : String) (r : DRef) (D : Path)
+    (dr : DRef) (rel : List String)
+    (hr : (RState.run {} ops).ref q n = some ⟨false, r⟩) (hd : (RState.run {} ops).dirty q = false)
+    (hf : (RState.run {} ops).firstDefiner q n = some (D, dr)) (hm : dr.mode ≠ .absolute)
+    (ht : dr.binding.target = .obj (D ++ rel)) (hrel : "" ∉ rel) :
+    r.mode = dr.mode ∧ r.binding.isRelative = true ∧
+      (r.binding.target = .obj (q ++ rel) ∨ r.binding.target = .null) := by
+  have hsh := reachable_shape ops
+  obtain ⟨D', dr', hf', hmode, hexp⟩ := derived_refs_always_rebound ops q n r hr hd
+  rw [hf] at hf'; cases hf'
+  have hqi := ref_in_ids hsh hr
+  have hDi := definer_in_ids hsh (firstDefiner_some hf).2
+  have hDm : D ∈ (RState.run {} ops).mroOf q := List.mem_of_mem_tail (firstDefiner_some hf).1
+  rw [ht] at hexp
+  obtain ⟨b, hb, hu⟩ := hexp
+  have hs := static_rebind (RState.run {} ops).mroOf (fun _ => true) dr.mode q D rel (createDerived dr.mode).binding
+    hm (hsh.clean q hqi) (hsh.clean D hDi) hrel hDm
+  simp only [if_true] at hs
+  simp only [reinherit, hs, Option.some.injEq] at hb
+  subst hb
+  refine ⟨hmode, ?_⟩
+  rcases hu with hu | ⟨_, h2, _, h4, _⟩
+  · rw [hu]; exact ⟨rfl, Or.inl rfl⟩
+  · exact ⟨h2, Or.inr h4⟩
+
+/-- **auto, no counterpart** (`get_relative` answers `None` in the current state: the target is outside the
+trees `get_relative` relates): the derived reference keeps denoting the original object -/
+theorem derived_outside_keeps_object (ops : List ROp) (q : Path) (n : String) (r : DRef) (D : Path) (dr : DRef)
+    (v : Path)
+    (hr : (RState.run {} ops).ref q n = some ⟨false, r⟩) (hd : (RState.run {} ops).dirty q = false)
+    (hf : (RState.run {} ops).firstDefiner q n = some (D, dr)) (hm : dr.mode = .auto)
+    (ht : dr.binding.target = .obj v) (hg : getRelative (RState.run {} ops).mroOf q D v = .none) :
+    r = ⟨.auto, ⟨.obj v, false⟩⟩ := by
+  obtain ⟨D', dr', hf', hmode, hexp⟩ := derived_refs_always_rebound ops q n r hr hd
+  rw [hf] at hf'; cases hf'
+  rw [ht] at hexp
+  obtain ⟨b, hb, hu⟩ := hexp
+  rw [hm] at hb
+  simp only [reinherit, onInherit, getRelativeInterface, hg, Option.some.injEq] at hb
+  subst hb
+  rcases hu with hu | ⟨_, _, h3, _⟩
+  · exact hu
+  · cases h3
+
+/-- a value that is no object is copied, whatever the mode -/
+theorem derived_plain_value_copied (ops : List ROp) (q : Path) (n : String) (r : DRef) (D : Path) (dr : DRef) (x : Int)
+    (hr : (RState.run {} ops).ref q n = some ⟨false, r⟩) (hd : (RState.run {} ops).dirty q = false)
+    (hf : (RState.run {} ops).firstDefiner q n = some (D, dr)) (ht : dr.binding.target = .plain x) :
+    r.mode = dr.mode ∧ r.binding.target = .plain x := by
+  obtain ⟨D', dr', hf', hmode, hexp⟩ := derived_refs_always_rebound ops q n r hr hd
+  rw [hf] at hf'; cases hf'
+  rw [ht] at hexp
+  exact ⟨hmode, hexp⟩
+
+/-- **a `relative` reference is never bound out of scope**: in every reachable state a derived reference in
+`relative` mode whose definer holds an object is bound relatively (the operation that would have bound it
+absolutely was refused) -/
+theorem derived_relative_mode_is_relative (ops : List ROp) (q : Path) (n : String) (r : DRef) (D : Path) (dr : DRef)
+    (v : Path)
+    (hr : (RState.run {} ops).ref q n = some ⟨false, r⟩) (hd : (RState.run {} ops).dirty q = false)
+    (hf : (RState.run {} ops).firstDefiner q n = some (D, dr)) (hm : dr.mode = .relative)
+    (ht : dr.binding.target = .obj v) : r.binding.isRelative = true := by
+  obtain ⟨D', dr', hf', hmode, hexp⟩ := derived_refs_always_rebound ops q n r hr hd
+  rw [hf] at hf'; cases hf'
+  rw [ht] at hexp
+  obtain ⟨b, hb, hu⟩ := hexp
+  rw [hm] at hb
+  have hbf : b.binding.isRelative = true := by
+    simp only [reinherit, onInherit] at hb
+    cases hgi : getRelativeInterface (RState.run {} ops).mroOf (fun _ => true) q D v with
+    | none => rw [hgi] at hb; simp at hb
+    | some x =>
+      obtain ⟨rel, tg⟩ := x
+      rw [hgi] at hb
+      cases rel with
+      | false => simp at hb
+      | true => simp at hb; rw [← hb]
+  rcases hu with hu | ⟨_, h2, _, _, _⟩
+  · rw [hu]; exact hbf
+  · exact h2
+
+/-! ### the two known findings as witnesses -/
+
+/-- `Xsp.Ch` derives `Ysp.Ch`, `Ysp.Ch.rr = Ysp.foo` (auto): absolute in `Xsp.Ch`; then `Xsp.add_bases(Ysp)` -/
+def enclosingOps : List ROp := [
+  .newSpace [] "Ysp" [] ["foo"], .newSpace ["Ysp"] "Ch" [] [],
+  .newSpace [] "Xsp" [] ["foo"], .newSpace ["Xsp"] "Ch" [["Ysp", "Ch"]] [],
+  .setRef ["Ysp", "Ch"] "rr" (.obj ["Ysp", "foo"]) .auto,
+  .addBase ["Xsp"] ["Ysp"]]
+
+/-- **Without the hypothesis on the enclosing spaces the statement is false** (known finding
+C10-enclosing-base-change): after `Xsp.add_bases(Ysp)` the reference `Xsp.Ch.rr` still denotes `Ysp.foo`
+absolutely, re-derivation NOW binds it to `Xsp.foo` relatively; the ghost flag marks exactly that space. -/
+theorem enclosing_base_change_full_fails :
+    ¬ ∀ (ops : List ROp) (q : Path) (n : String) (r : DRef),
+        (RState.run {} ops).ref q n = some ⟨false, r⟩ → Expected (RState.run {} ops) q n r := by
+  intro h
+  have hr : (RState.run {} enclosingOps).ref ["Xsp", "Ch"] "rr" = some ⟨false, ⟨.auto, ⟨.obj ["Ysp", "foo"], false⟩⟩⟩ := by
+    decide
+  obtain ⟨D, dr, hf, _, hexp⟩ := h enclosingOps ["Xsp", "Ch"] "rr" _ hr
+  have hf0 : (RState.run {} enclosingOps).firstDefiner ["Xsp", "Ch"] "rr" =
+      some (["Ysp", "Ch"], ⟨.auto, ⟨.obj ["Ysp", "foo"], true⟩⟩) := by decide
+  rw [hf0] at hf; cases hf
+  obtain ⟨b, hb, hu⟩ := hexp
+  have hb0 : reinherit (RState.run {} enclosingOps).mroOf (fun _ => true) (createDerived .auto) .auto ["Xsp", "Ch"]
+      ["Ysp", "Ch"] (.obj ["Ysp", "foo"]) = some ⟨.auto, ⟨.obj ["Xsp", "foo"], true⟩⟩ := by decide
+  rw [hb0] at hb; cases hb
+  rcases hu with hu | ⟨_, h2, _⟩
+  · exact absurd hu (by decide)
+  · cases h2
+
+example : (RState.run {} enclosingOps).dirty ["Xsp", "Ch"] = true ∧
+    (RState.run {} enclosingOps).dirty ["Xsp"] = false ∧ (RState.run {} enclosingOps).dirty ["Ysp", "Ch"] = false := by
+  decide
+
+/-- `Base` derives `Def`; `Def.r = Base.foo` (auto): the target is outside `Def`'s tree, so `Base.r` is bound
+absolutely - correctly, by the theorems above -; an ItemSpace of `Base` then keeps the static `Base.foo`
+although the target lies inside its base's tree (known finding C10-dyn-derived-absolute-inside,
+`dynamic_rebind_full_fails` at the level of a reachable state) -/
+def dynInsideOps : List ROp := [
+  .newSpace [] "Def" [] [], .newSpace [] "Base" [["Def"]] ["foo"],
+  .setRef ["Def"] "r" (.obj ["Base", "foo"]) .auto]
+
+theorem dyn_derived_absolute_inside_witness :
+    (RState.run {} dynInsideOps).ref ["Base"] "r" = some ⟨false, ⟨.auto, ⟨.obj ["Base", "foo"], false⟩⟩⟩ ∧
+    (RState.run {} dynInsideOps).dirty ["Base"] = false ∧
+    (RState.run {} dynInsideOps).itemView ["Base"] ["Base"] "r" = some .keep ∧
+    (RState.run {} dynInsideOps).exist (["Base"] ++ ["foo"]) = true := by decide
+
+/-- … while a reference that was bound relatively is bound to the object of the dynamic tree (`dynamic_rebind`
+on a reachable state: `Base.s = Base.foo` defined in `Base`; `Sub` derives `Base`: `Sub[1].s` is `Sub[1].foo`) -/
+example :
+    let st := RState.run {} [.newSpace [] "Base" [] ["foo"], .setRef ["Base"] "s" (.obj ["Base", "foo"]) .auto,
+      .newSpace [] "Sub" [["Base"]] []]
+    st.ref ["Sub"] "s" = some ⟨false, ⟨.auto, ⟨.obj ["Sub", "foo"], true⟩⟩⟩ ∧
+    st.itemView ["Sub"] ["Sub"] "s" = some (.dyn ["foo"]) := by decide
+
+/-! ### non-vacuity: a history with every operation, accepted and refused -/
+
+def histOps : List ROp := [
+  .newSpace [] "Base" [] ["foo"], .newSpace [] "Out" [] ["oo"],
+  .setRef ["Base"] "rr" (.obj ["Base", "foo"]) .auto,
+  .newSpace [] "Sub" [["Base"]] [],
+  .setRef ["Base"] "ra" (.obj ["Base"]) .relative,
+  .setRef ["Base"] "rb" (.obj ["Out", "oo"]) .auto,
+  .setRef ["Base"] "rc" (.obj ["Out", "oo"]) .relative,      -- refused: out of scope in `Sub`
+  .setRef ["Base"] "rp" (.plain 7) .auto,
+  .newSpace [] "Two" [] [], .setRef ["Two"] "rr" (.obj ["Out"]) .absolute,
+  .addBase ["Sub"] ["Two"],                                    -- `Sub(Base, Two)`: `rr` still from `Base`
+  .removeBase ["Sub"] ["Base"],                                -- now from `Two`: absolute, `Out`
+  .addBase ["Sub"] ["Base"],                                   -- `Sub(Two, Base)`
+  .delRef ["Two"] "rr"]                                        -- back to `Base.rr`: `Sub.foo`
+
+example : (RState.run {} (histOps.take 8)).ref ["Sub"] "rr" = some ⟨false, ⟨.auto, ⟨.obj ["Sub", "foo"], true⟩⟩⟩ ∧
+    (RState.run {} (histOps.take 8)).ref ["Sub"] "ra" = some ⟨false, ⟨.relative, ⟨.obj ["Sub"], true⟩⟩⟩ ∧
+    (RState.run {} (histOps.take 8)).ref ["Sub"] "rb" = some ⟨false, ⟨.auto, ⟨.obj ["Out", "oo"], false⟩⟩⟩ ∧
+    (RState.run {} (histOps.take 8)).ref ["Sub"] "rc" = none ∧
+    (RState.run {} (histOps.take 8)).ref ["Sub"] "rp" = some ⟨false, ⟨.auto, ⟨.plain 7, false⟩⟩⟩ := by decide
+example : ((RState.run {} (histOps.take 6)).apply (.setRef ["Base"] "rc" (.obj ["Out", "oo"]) .relative)).isNone = true := by
+  decide
+example : (RState.run {} (histOps.take 12)).ref ["Sub"] "rr" = some ⟨false, ⟨.absolute, ⟨.obj ["Out"], false⟩⟩⟩ ∧
+    (RState.run {} (histOps.take 13)).ref ["Sub"] "rr" = some ⟨false, ⟨.absolute, ⟨.obj ["Out"], false⟩⟩⟩ ∧
+    (RState.run {} histOps).ref ["Sub"] "rr" = some ⟨false, ⟨.auto, ⟨.obj ["Sub", "foo"], true⟩⟩⟩ ∧
+    (RState.run {} histOps).firstDefiner ["Sub"] "rr" = some (["Base"], ⟨.auto, ⟨.obj ["Base", "foo"], true⟩⟩) ∧
+    (RState.run {} histOps).dirty ["Sub"] = false := by decide
+
+end histories
 
 /-! ## non-vacuity: concrete instances of the hypotheses and of the rebinding -/
 
